@@ -4,6 +4,7 @@ coap/pdu.py."""
 import aiohomekit.controller.ble.bleak as real_bleak
 import aiohomekit.controller.ble.client as real_client
 import aiohomekit.controller.ble.key as real_key
+import aiohomekit.controller.coap.connection as real_cconn
 import aiohomekit.controller.coap.pdu as real_cpdu
 import aiohomekit.pdu as real_pdu
 
@@ -15,6 +16,7 @@ from . import common
 from .refs import byte, rope
 
 PROP = "C17"
+CCONN = "aiohomekit.controller.coap.connection"
 PDU, CLIENT, KEY, CPDU, BLEAK = ("aiohomekit.pdu", "aiohomekit.controller.ble.client", "aiohomekit.controller.ble.key",
                                  "aiohomekit.controller.coap.pdu", "aiohomekit.controller.ble.bleak")
 
@@ -31,12 +33,13 @@ def copies(mutate=None):
     m.client = load(CLIENT, deps={PDU: m.pdu, KEY: m.key}, src_transform=mutate.get(CLIENT))
     m.cpdu = load(CPDU, src_transform=mutate.get(CPDU))
     m.bleak = load(BLEAK, src_transform=mutate.get(BLEAK))
+    m.cconn = load(CCONN, deps={CPDU: m.cpdu}, src_transform=mutate.get(CCONN))
     return m
 
 
 def reals():
     m = Mods()
-    m.pdu, m.key, m.client, m.cpdu, m.bleak = real_pdu, real_key, real_client, real_cpdu, real_bleak
+    m.pdu, m.key, m.client, m.cpdu, m.bleak, m.cconn = real_pdu, real_key, real_client, real_cpdu, real_bleak, real_cconn
     return m
 
 
@@ -314,6 +317,82 @@ def coap_encode(M, k, lmax):
     return h
 
 
+ITEM_OUTCOMES = ["ok", "status-4", "status-6", "wrong-tid", "bad-control"]
+PIPE_OPS = ["read_characteristics", "write_characteristics", "subscribe_to", "unsubscribe_from"]
+
+
+def coap_pipeline(M, op, k):
+    """request batch -> real encode_all_pdus -> reference accessory -> real decode_all_pdus -> real result mapper:
+    the i-th outcome is attributed to the i-th requested characteristic"""
+    def h(ex):
+        outs = [ex.choice("item%d" % i, ITEM_OUTCOMES) for i in range(k)]
+        ids = [(1, 10 + i) for i in range(k)]
+        conn = object.__new__(M.cconn.CoAPHomeKitConnection)
+
+        class Char:
+            def __init__(self):
+                self.value = None
+                self.raw_value = b"\x01"
+
+        class Info:
+            def find_characteristic_by_iid(self, iid):
+                return None
+
+            def find_characteristic_by_aid_iid(self, aid, iid):
+                return Char()
+
+        conn.info = Info()
+        seen = {}
+
+        class Enc:
+            async def post_all(self, opcode, iids, data):
+                req = M.cpdu.encode_all_pdus(opcode, iids, data)
+                # reference accessory: parse `00 op tid iid16 len16 body` items, answer each by its scripted outcome
+                r = as_rope(req)
+                pos, items = 0, []
+                n = r.length()
+                while decide(pos < n):
+                    tid, iid, ln = r[pos + 2], r[pos + 3] + 256 * r[pos + 4], r[pos + 5] + 256 * r[pos + 6]
+                    items.append((tid, iid))
+                    pos = pos + 7 + ln
+                seen["items"] = items
+                resp = rope()
+                for i, (tid, iid) in enumerate(items):
+                    o = outs[i]
+                    ctl = 0x00 if o == "bad-control" else 0x02
+                    st = 4 if o == "status-4" else 6 if o == "status-6" else 0
+                    t = tid + 1 if o == "wrong-tid" else tid
+                    resp = resp + rope(bytes([ctl]), byte(t), bytes([st]), b"\x00\x00")
+                return M.cpdu.decode_all_pdus(0, B(ex, resp))
+
+        conn.enc_ctx = Enc()
+        if op == "write_characteristics":
+            res = drive(conn.write_characteristics([(a, i, 1) for a, i in ids]))
+        else:
+            res = drive(getattr(conn, op)(list(ids)))
+        items = seen.get("items", [])
+        ok = len(items) == k
+        ex.require(ok, "coap-pipeline: one request item per characteristic")
+        if ok:
+            for i, (tid, iid) in enumerate(items):
+                ex.require(tid == i and iid == ids[i][1], "coap-pipeline: item i carries transaction id i and the i-th instance id")
+        for i, key in enumerate(ids):
+            r = res.get(key)
+            if outs[i] == "ok":
+                ex.tag("item-ok")
+                if op == "read_characteristics":
+                    ex.require(r == {"value": b""}, "coap-pipeline: the i-th value is reported for the i-th characteristic")
+                else:
+                    ex.require(r is None, "coap-pipeline: an accepted item is not reported as failed")
+            else:
+                ex.tag("item-error")
+                ex.require(r is not None and r.get("status") not in (0, None), "coap-pipeline: the i-th failure is reported for the i-th characteristic with a non-zero status")
+                if outs[i].startswith("status-") and r is not None:
+                    ex.require(r.get("status") == -int(outs[i][-1]), "coap-pipeline: the accessory's status is reported")
+        return ex.observe(outs)
+    return h
+
+
 # ------------------------------------------------------------------ build
 def build(tier, mutate=None):
     C = copies(mutate)
@@ -347,6 +426,10 @@ def build(tier, mutate=None):
             bounds={"items": kk, "control/tid": "0..255", "status": "0..6" if dom is None else "{0,4}", "body_len": "0..300"},
             regions=["item-ok", "item-error"])
     add("coap/encode_all_pdus/k=%d" % k, coap_encode, k, 300, bounds={"items": k, "iid": "0..65535", "body_len": "0..300"})
+    for op in PIPE_OPS:
+        kk = 2 if tier == "canary" else 3 if tier == "quick" else 4
+        add("coap/pipeline/%s/k=%d" % (op, kk), coap_pipeline, op, kk, bounds={"items": kk, "per-item outcome": ITEM_OUTCOMES},
+            regions=["item-ok", "item-error"])
     return units
 
 
@@ -356,6 +439,7 @@ CANARIES = [
     ("continuation tid check dropped", {PDU: lambda s: s.replace('    if tid != expected_tid:\n        raise ValueError(f"Expected transaction {expected_tid} but got transaction {tid}")\n\n    return data[2:]', "    return data[2:]")}, lambda n: n.startswith("ble-in") and "plain" in n),
     ("coap offset 5 -> 4", {CPDU: lambda s: s.replace("offset += 5 + body_len", "offset += 4 + body_len")}, lambda n: n.startswith("coap/decode")),
     ("coap control mask", {CPDU: lambda s: s.replace("control & 0b0000_1110 != 0b0000_0010", "control & 0b0000_0110 != 0b0000_0010")}, lambda n: n.startswith("coap/decode")),
+    ("subscribe failures attributed to the previous item", {CCONN: lambda s: s.replace("    def _subscribe_to_exit(self, ids: list[tuple[int, int]], pdu_results: list[bytes | PDUStatus]) -> dict:\n        results = {}\n        for idx, result in enumerate(pdu_results):\n            aid_iid = ids[idx]", "    def _subscribe_to_exit(self, ids: list[tuple[int, int]], pdu_results: list[bytes | PDUStatus]) -> dict:\n        results = {}\n        for idx, result in enumerate(pdu_results):\n            aid_iid = ids[idx - 1]")}, lambda n: "pipeline/subscribe_to" in n),
     ("encryption overhead ignored", {BLEAK: lambda s: s.replace("        fragment_size -= additional_overhead_size", "        pass")}, lambda n: "fragment-size" in n),
 ]
 
